@@ -149,7 +149,34 @@ Forms == {
                Assignments |-> <<[T |-> "UpdateExpression", Column |-> Id("a"), Value |-> IntLit("1")]>>]],
   [name |-> "delete", toks |-> <<"DELETE", "FROM", "t", "WHERE", "a", "=", "1">>,
      tree |-> [T |-> "DeleteStatement", TableName |-> "t", Where |-> Bin(Id("a"), "=", IntLit("1"))]],
-  [name |-> "delete-all", toks |-> <<"DELETE", "FROM", "t">>, tree |-> [T |-> "DeleteStatement", TableName |-> "t"]]
+  [name |-> "delete-all", toks |-> <<"DELETE", "FROM", "t">>, tree |-> [T |-> "DeleteStatement", TableName |-> "t"]],
+  \* ---- MERGE and data definition ----
+  [name |-> "merge", toks |-> <<"MERGE", "INTO", "t", "USING", "u", "ON", "t", ".", "a", "=", "u", ".", "a",
+                                 "WHEN", "MATCHED", "THEN", "UPDATE", "SET", "b", "=", "u", ".", "b",
+                                 "WHEN", "NOT", "MATCHED", "THEN", "INSERT", "(", "a", ")", "VALUES", "(", "u", ".", "a", ")">>,
+     tree |-> [T |-> "MergeStatement", TargetTable |-> TRef("t"), SourceTable |-> TRef("u"),
+               OnCondition |-> Bin(QId("t", "a"), "=", QId("u", "a")),
+               WhenClauses |-> <<[T |-> "MergeWhenClause", Type |-> "MATCHED",
+                                   Action |-> [T |-> "MergeAction", ActionType |-> "UPDATE",
+                                               SetClauses |-> <<[T |-> "SetClause", Column |-> "b", Value |-> QId("u", "b")]>>]],
+                                 [T |-> "MergeWhenClause", Type |-> "NOT_MATCHED",
+                                   Action |-> [T |-> "MergeAction", ActionType |-> "INSERT", Columns |-> <<"a">>, Values |-> <<QId("u", "a")>>]]>>]],
+  [name |-> "merge-delete", toks |-> <<"MERGE", "INTO", "t", "USING", "u", "ON", "t", ".", "a", "=", "u", ".", "a", "WHEN", "MATCHED", "THEN", "DELETE">>,
+     tree |-> [T |-> "MergeStatement", TargetTable |-> TRef("t"), SourceTable |-> TRef("u"),
+               OnCondition |-> Bin(QId("t", "a"), "=", QId("u", "a")),
+               WhenClauses |-> <<[T |-> "MergeWhenClause", Type |-> "MATCHED", Action |-> [T |-> "MergeAction", ActionType |-> "DELETE"]]>>]],
+  [name |-> "create-view", toks |-> <<"CREATE", "VIEW", "v", "AS">> \o S1t, tree |-> [T |-> "CreateViewStatement", Name |-> "v", Query |-> S1]],
+  [name |-> "create-view-union", toks |-> <<"CREATE", "VIEW", "v", "AS">> \o S1t \o <<"UNION">> \o S2t,
+     tree |-> [T |-> "CreateViewStatement", Name |-> "v", Query |-> SetOp(S1, "UNION", FALSE, S2)]],
+  [name |-> "drop-table", toks |-> <<"DROP", "TABLE", "t">>, tree |-> [T |-> "DropStatement", ObjectType |-> "TABLE", Names |-> <<"t">>]],
+  [name |-> "truncate", toks |-> <<"TRUNCATE", "TABLE", "t">>, tree |-> [T |-> "TruncateStatement", Tables |-> <<"t">>]],
+  [name |-> "create-index", toks |-> <<"CREATE", "INDEX", "i", "ON", "t", "(", "a", ",", "b", ")">>,
+     tree |-> [T |-> "CreateIndexStatement", Name |-> "i", Table |-> "t",
+               Columns |-> <<[T |-> "IndexColumn", Column |-> "a"], [T |-> "IndexColumn", Column |-> "b"]>>]],
+  [name |-> "create-table", toks |-> <<"CREATE", "TABLE", "t", "(", "a", "INT", "PRIMARY", "KEY", ",", "b", "VARCHAR", "(", "20", ")", "NOT", "NULL", ")">>,
+     tree |-> [T |-> "CreateTableStatement", Name |-> "t",
+               Columns |-> <<[T |-> "ColumnDef", Name |-> "a", Type |-> "INT", Constraints |-> <<[T |-> "ColumnConstraint", Type |-> "PRIMARY KEY"]>>],
+                             [T |-> "ColumnDef", Name |-> "b", Type |-> "VARCHAR(20)", Constraints |-> <<[T |-> "ColumnConstraint", Type |-> "NOT NULL"]>>]>>]]
 }
 
 \* ---- ORDER BY lists: every list of 1..3 items x direction x NULLS placement, in the four places a list may stand ----
